@@ -84,8 +84,11 @@ Definition per_parent_ok (single : bool) (obs ref : outs) : bool :=
 
 Definition spec_holds (c : case) : bool :=
   let h := c_hop c in
-  let ref := if c_m2m c then attach_m2m h (c_parents c) (c_joins c) (c_children c)
-             else attach h (c_parents c) (c_children c) in
+  let ref := match c_mode c with
+             | MJoins => attach_sql h (c_parents c) (c_children c)
+             | _ => if c_m2m c then attach_m2m h (c_parents c) (c_joins c) (c_children c)
+                    else attach h (c_parents c) (c_children c)
+             end in
   (o_err c =? 0)
   && match c_mode c with
      | MPreload | MJoins =>
@@ -101,7 +104,7 @@ Definition spec_holds (c : case) : bool :=
      | MAssocFind =>
        (* exactly the children that belong to one of the owners, each once *)
        let want := map c_uid (filter (fun ch => existsb (fun kp =>
-                       if c_m2m c then belongs_m2m h (c_joins c) kp ch else belongs h kp ch) (c_parents c))
+                       if c_m2m c then belongs_m2m_find h (c_joins c) kp ch else belongs h kp ch) (c_parents c))
                      (c_children c)) in
        outs_eqb (o_att c) [sortz want]
      end.
